@@ -201,7 +201,7 @@ fn @name@() {
             functions=["SubRule::context_match_option", "SubRule::match_opt_states", "SubRule::context_match", "SubRule::context_match_ipa", "SegPos::increment", "HashMap::clone (empty binding tables)"],
             symbolic="4 word bundles, the optional's segment c, the following segment d (2^240), stress, tone", shape="(c,%d:%d) followed by %s" % (mn, mx, rest), unwind=8, stubs=["std::hash::RandomState::new -> fixed keys"], weight=3))
     return {
-        "harnesses": hs, "cap_s": 900,
+        "harnesses": hs, "cap_s": 900, "jobs": 10,
         "bounds": ["unwind %d = FType::count()+4 (loops over 26 feature slots, 8 node slots, <=5 manual features, Vec of <=5 pairs)" % unwind,
                    "group table read from doc/doc.md of the copied tree at generation time: %s" % {k: v for k, v in sorted(groups.items())}],
         "outside": ["condensed rules, `_,X` and `&`: their meaning is only observable by applying whole rules (or by parsing token vectors), which does not finish under CBMC; optionals are decided at the kernel (context_match_option with a one-segment optional followed by `#` or one segment), not nested and not with matrices",
